@@ -496,6 +496,18 @@ func (c *Ctx) Finish() int {
 			"static call resolution; VTA/CHA call graph for non-reflective calls"}, c.Trusted...),
 		"exhaustive": true,
 	}
+	fileSet := map[string]bool{}
+	for _, o := range c.Obs {
+		if i := strings.LastIndex(o.Pos, ":"); i > 0 {
+			fileSet[o.Pos[:i]] = true
+		}
+	}
+	var files []string
+	for f := range fileSet {
+		files = append(files, f)
+	}
+	sort.Strings(files)
+	cov["files_with_obligations"] = files
 	for k, v := range c.Extra {
 		cov[k] = v
 	}
